@@ -366,7 +366,19 @@ func (s *c08CacheSys) Canon() string {
 	if up > 7 {
 		up = 7
 	}
-	return fmt.Sprintf("member=%v down=%v cached=%v valid=%v age=%s stable=%d up=%d", s.member, c08Dir.Down, cached, valid, age, stable, up)
+	// the implementation's own hidden state: for how many more whole minutes the
+	// cached entry stays valid (read by looking at the cache from the future), so
+	// that states whose entries expire at different times are never merged
+	left := 0
+	for m := 1; m <= 8 && valid; m++ {
+		ok := false
+		vfAt(time.Duration(m)*time.Minute, func() { _, ok = s.w.state.isAdminCache.Get("gadmin") })
+		if !ok {
+			break
+		}
+		left = m
+	}
+	return fmt.Sprintf("member=%v down=%v cached=%v valid=%v left=%d age=%s stable=%d up=%d", s.member, c08Dir.Down, cached, valid, left, age, stable, up)
 }
 func (s *c08CacheSys) Apply(op string) (string, string, string) {
 	switch op {
